@@ -1,4 +1,4 @@
-import BridgeVerif.Translated.Enc
+import BridgeVerif.Translated.EncBase
 import BridgeVerif.Model.Notation
 /-!
 # The notation functions AS TRANSLATED are the hand-written model of them  (C15, and the helpers of C01–C07)
@@ -119,7 +119,7 @@ theorem bid_int_out_of_range : ∀ k : Fin 6,
 theorem card_numbers : ∀ c ∈ Card.deck,
     (meth n_Card K.int__ [encCard c]).int? = some (c.idx : Int) ∧
     isVal (meth n_Card n_int_to_card [.cls n_Card, .int c.idx]) (encCard c) = true ∧
-    isVal (P.runNew n_Card [.int c.rank, encSuit c.suit]) (encCard c) = true := by
+    isVal (PB.runNew n_Card [.int c.rank, encSuit c.suit]) (encCard c) = true := by
   decide +kernel
 
 theorem card_texts : ∀ c ∈ Card.deck,
@@ -133,7 +133,7 @@ theorem card_int_out_of_range : ∀ k : Fin 6,
   decide +kernel
 
 theorem card_rejects : ∀ r : Fin 20, ∀ s ∈ suits,
-    (mkCard? r.val s).isNone = true → (P.runNew n_Card [.int r.val, encSuit s]).exc? = some K.ValueError := by
+    (mkCard? r.val s).isNone = true → (PB.runNew n_Card [.int r.val, encSuit s]).exc? = some K.ValueError := by
   decide +kernel
 
 /-! ## contract.py -/
@@ -159,6 +159,6 @@ def contractAgrees (c : Contract) : Bool :=
   (meth n_Contract K.str__ [o]).str? == some (contractStr c) &&
   valOrRaises ((strToContract? (contractStr c) c.vul c.declarer).map encContract)
     (meth n_Contract n_str_to_contract [.cls n_Contract, .str (contractStr c), encVul c.vul, encOpt encSeat c.declarer]) &&
-  isVal (P.runNew n_Contract [encOpt encBid c.finalBid, .bool c.x, .bool c.xx, encVul c.vul, encOpt encSeat c.declarer]) o
+  isVal (PB.runNew n_Contract [encOpt encBid c.finalBid, .bool c.x, .bool c.xx, encVul c.vul, encOpt encSeat c.declarer]) o
 
 end Bridge.Translated
